@@ -9,7 +9,8 @@ PROPERTY = "C15"
 RULE = (
     "cases = (response form, right-hand side, frame): responses numeric, str, Categorical, ordered Categorical, "
     "y[ident], y['quoted level'], y[\"level with spaces\"], a level absent from the data, calls (np.abs(y), "
-    "binary(g, 'g1'), C(k)), prop / p / proportion with column or constant trials, invalid responses (sums, "
+    "binary(g, 'g1'), C(k)), prop / p / proportion with column or constant trials and successes held as int64, int8 or bool, a single-level "
+    "factor, frames of a single row, invalid responses (sums, "
     "interactions, products, a literal, offset, a predictor-side prop) and no response; right-hand sides from the rich "
     "generator, also containing the response variable itself; distinct = distinct (formula, frame); non-trivial = a "
     "categorical response with >= 3 levels, or y[level], or prop, combined with a right-hand side that has a "
@@ -21,7 +22,9 @@ ASSUMPTIONS = [
 ]
 
 VALID = ["y", "x", "k", "I(x > 0)", "f", "g", "h", "u", "g[g1]", "g['g1']", 'h["lo"]', "w['a b']", 'w["c d"]', "f[zz]", "np.abs(y)", "binary(g, 'g1')",
-         "C(k)", "C(h)", "C(f)", "d['10']", 'd["2"]', "d[1]" if False else "d['1']", "prop(s, n)", "p(s, n)", "proportion(s, n)", "prop(s, 40)", "p(s, 40)", None]
+         "C(k)", "C(h)", "C(f)", "d['10']", 'd["2"]', "d[1]" if False else "d['1']", "prop(s, n)", "p(s, n)", "proportion(s, n)", "prop(s, 40)", "p(s, 40)", "prop(sb, 5)", "p(sb, 1)", "prop(s8, 200)", "proportion(s8, n)",
+         "c1", "C(c1)", None]
+ONE_ROW = ["y", "np.abs(y)", "I(x > 0)", "f", "g", "g['g1']", "w['a b']", "prop(s, n)", "p(s, 40)", "prop(sb, 5)", "c1"]
 INVALID = ["y + x", "y:x", "y*x", "1", "0", "offset(y)", "y / x", "(y | g)", "2"]
 
 
@@ -38,6 +41,19 @@ def case_strategy(draw):
     spec["cols"].append({"name": "w", "kind": "str", "values": [wl[(i + seed) % 3] for i in range(n)]})
     dl = ["10", "2", "1"]  # levels that look like numbers
     spec["cols"].append({"name": "d", "kind": "str", "values": [dl[(i * 2 + seed) % 3] for i in range(n)]})
+    spec["cols"].append({"name": "sb", "kind": "bool", "values": [bool((i + seed) % 3 == 0) for i in range(n)]})  # successes held as booleans
+    spec["cols"].append({"name": "s8", "kind": "int8", "values": [(i * 3 + seed) % 5 for i in range(n)]})  # ... and as small integers
+    spec["cols"].append({"name": "c1", "kind": "str", "values": ["only"] * n})  # a factor with a single level
+    if draw(st.integers(0, 9)) == 0:
+        # a frame of a single row: every response form still has one row and its usual number of columns
+        spec = frames.take(spec, [draw(st.integers(0, n - 1))])
+        resp = draw(st.sampled_from(ONE_ROW))
+        base = resp.split("[")[0]
+        if base in ("f", "g") and frames.column(spec, base).get("ordered"):
+            resp = "y"
+        body = draw(st.sampled_from(["1", "x", "0 + x", "1 + x + z"]))
+        return {"response": resp, "valid": True, "design": {"response": None, "intercept": "implicit", "terms": [], "groups": [], "formula": body},
+                "frame": spec, "rhs_only_pred": False}
     valid = draw(st.integers(0, 5)) > 0
     resp = draw(st.sampled_from(VALID if valid else INVALID))
     d = draw(rich.design(response=None, max_groups=1))
@@ -59,7 +75,7 @@ def expected_response(resp, frame, spec):
         return "numeric", (col("x") > 0).to_numpy(dtype=float), None
     if resp == "np.abs(y)":
         return "numeric", np.abs(col("y").to_numpy(dtype=float)), None
-    if resp in ("f", "g", "h", "u", "C(k)", "C(h)", "C(f)"):
+    if resp in ("f", "g", "h", "u", "C(k)", "C(h)", "C(f)", "c1", "C(c1)"):
         name = resp[2:-1] if resp.startswith("C(") else resp
         c = frames.column(spec, name)
         vals = col(name).tolist()
@@ -76,8 +92,9 @@ def expected_response(resp, frame, spec):
     if resp.startswith("binary("):
         return "numeric", np.array([1 if v == "g1" else 0 for v in col("g").tolist()]), None
     if resp.split("(")[0] in ("prop", "p", "proportion"):
-        s = col("s").to_numpy()
-        t = col("n").to_numpy() if resp.endswith("n)") else np.full(len(frame), 40)
+        a, b = [v.strip() for v in resp[resp.index("(") + 1:-1].split(",")]
+        s = col(a).to_numpy().astype(float)
+        t = col(b).to_numpy() if b in frame.columns else np.full(len(frame), int(b))
         return "proportion", np.column_stack([s, t]), None
     raise KeyError(resp)
 
@@ -130,9 +147,14 @@ def judge(ctx, case):
         return
     kind, want, levels = expected_response(resp, frame, spec)
     got = np.asarray(dm.response.design_matrix)
-    if got.shape[0] != len(frame):
-        ctx.fail("response", full, f"{formula!r}: response has {got.shape[0]} rows, frame has {len(frame)}", "rows")
-    elif got.squeeze().shape != np.asarray(want).squeeze().shape or not np.allclose(got.squeeze().astype(float), np.asarray(want).squeeze().astype(float), rtol=0, atol=0):
+    want_arr = np.asarray(want)
+    if got.ndim not in (1, 2) or got.shape[0] != len(frame):
+        ctx.fail("response", full, f"{formula!r}: response has shape {got.shape}, frame has {len(frame)} rows", "rows")
+    elif (levels is not None or kind == "proportion") and got.shape != want_arr.reshape(len(frame), -1).shape:
+        ctx.fail("response", full, f"{formula!r}: response has shape {got.shape}, expected {want_arr.reshape(len(frame), -1).shape} "
+                 f"(one column per {'level' if levels is not None else 'part'})", "shape")
+    elif got.reshape(len(frame), -1).shape != want_arr.reshape(len(frame), -1).shape or \
+            not np.allclose(got.reshape(len(frame), -1).astype(float), want_arr.reshape(len(frame), -1).astype(float), rtol=0, atol=0):
         ctx.fail("response", full, f"{formula!r}: response matrix {got.squeeze()[:6].tolist()}... differs from {np.asarray(want).squeeze()[:6].tolist()}...",
                  resp.split("(")[0].split("[")[0])
     if levels is not None:
